@@ -93,10 +93,10 @@ def _brief(outcomes):
 def work(item, rec):
     V = harness.boot()
     type_, role, c, forms = item
-    for tworow in (False, True):
+    for tworow in (False, True, "first"):
         outcomes, dev, groups = evaluate(V, type_, role, c, tworow, forms)
         classes = sorted({g[0] for g in groups})
-        rec.case((type_, role, c["cls"], "two-rows" if tworow else "one-row", dev or "+".join(classes)),
+        rec.case((type_, role, c["cls"], {False: "one-row", True: "two-rows", "first": "two-rows-companion-first"}[tworow], dev or "+".join(classes)),
                  "deviation" if dev else "all-" + classes[0], nontrivial=len(outcomes) >= 2,
                  sample={"type": type_, "role": role, "cell": c["t"], "class": c["cls"], "rows": 2 if tworow else 1,
                          "forms": sorted(outcomes), "outcome": dev or classes[0]})
@@ -112,7 +112,7 @@ def work(item, rec):
                           "%s component (%s), cell %r in a %s table: %s  [expected: all forms reject with a VTL input "
                           "error, or all accept with equal datapoints]" % (
                               type_, "identifier" if role == "id" else ("nullable measure" if role == "nm" else "non-nullable measure"),
-                              c["t"], "two-row" if tworow else "one-row", _brief(outcomes)),
+                              c["t"], {False: "one-row", True: "two-row", "first": "two-row (valid companion row first)"}[tworow], _brief(outcomes)),
                           {"type": type_, "role": role, "cell": {"t": c["t"], "cls": c["cls"]}, "tworow": tworow, "deviation": dev,
                            "forms": list(forms)})
 
@@ -121,7 +121,7 @@ class Check:
     ID = "C18"
     LEVEL = "exploration"
     RULE = ("exhaustive over 8 component types x 3 roles (identifier, nullable measure, non-nullable measure) x the pool of "
-            "cell texts of the type x {one-row table, two-row table with a valid companion} ; each table is run in every "
+            "cell texts of the type x {one-row table, two-row table with a valid companion after / before the cell} ; each table is run in every "
             "input form that can hold the same content (<= 7; thorough: + CSV with a BOM header and CSV / DataFrame / Parquet "
             "with reversed column order). A case is one table; distinct = (type, role, value class, "
             "table shape, partition of the forms by outcome); non-trivial = at least two forms were executed.")
@@ -154,7 +154,7 @@ class Check:
                      "tables_with_a_rejecting_form"):
             if not rec.counters.get(name):
                 rec.tool_error("non-vacuity: counter %s is zero" % name)
-        return {"exhaustive": True, "tables": 2 * len(items), "pool_sizes": {t: len(P.c18_pool(t, docs)) for t in P.TYPES},
+        return {"exhaustive": True, "tables": 3 * len(items), "pool_sizes": {t: len(P.c18_pool(t, docs)) for t in P.TYPES},
                 "forms": list(forms)}
 
     def replay(self, data):
